@@ -333,6 +333,12 @@ struct SimpleConstructData{
     }
     //! \brief Restrict data between \b ibegin and \b iend entries.
     void restrictData(int ibegin, int iend){ for(auto &d : data) d.value = std::vector<double>(d.value.begin() + ibegin, d.value.begin() + iend); }
+    //! \brief Returns the points of the samples that have been delivered and wait in \b data.
+    MultiIndexSet getWaitingPoints(int num_dimensions) const{
+        Data2D<int> waiting(num_dimensions, 0);
+        for(auto const &d : data) waiting.appendStrip(d.point);
+        return MultiIndexSet(waiting);
+    }
     //! \brief Remove \b points from the \b data and return a vector of the values in the \b points order.
     std::vector<double> extractValues(MultiIndexSet const &points){
         size_t num_outputs = data.front().value.size();
